@@ -1,6 +1,7 @@
 (* Props_C09.v — property C09 (the node GC collects exactly the vanished pods). *)
 From Coq Require Import ZArith List Bool.
 From TV Require Import PoolModel SvcModel SvcProofs.
+From TV Require PodExist.
 Import ListNotations.
 Local Open Scope Z_scope.
 
@@ -34,3 +35,13 @@ Print Assumptions c09_independent_refuted_before_fix.
 Example c09_ex :
   gc_pass (fun p => p =? 3) (fun p => if p =? 2 then None else Some (p =? 4)) (fun _ => true) [1; 2; 3; 4] = ([1], true).
 Proof. vm_compute. reflexivity. Qed.
+
+(* the answer of the API the pass relies on (PodExist): "exists" only for a pod of that name scheduled to THIS node, and
+   every such pod is found unless the API failed - a same-named pod on another node does not keep the record alive *)
+Theorem c09_pod_exist_is_local : forall me pods apierr name,
+  (PodExist.pod_exist me pods apierr name = Some true -> PodExist.lookup name pods = Some me) /\
+  (PodExist.lookup name pods = Some me -> PodExist.pod_exist me pods false name = Some true).
+Proof. intros me pods apierr name. split; [apply PodExist.pod_exist_local | apply PodExist.pod_exist_complete]. Qed.
+Print Assumptions c09_pod_exist_is_local.
+Example c09_ex_other_node : PodExist.pod_exist 1 [(7, 2)] false 7 = Some false /\ PodExist.pod_exist 1 [(7, 1)] false 7 = Some true.
+Proof. vm_compute. split; reflexivity. Qed.
